@@ -45,13 +45,20 @@ def true_compares(cfg, node, fnode):
 
 
 def holds_le(cmps, small, big):
-    """small <= big known?"""
+    """small <= big known?  Returns True for the non-strict test, "strict" when
+    the guard is small < big (it also rejects equal times: two processes started
+    within the same clock tick, e.g. a parent that forks at once)."""
+    strict = False
     for l, op, r in cmps:
-        if (l, r) == (small, big) and op in (ast.LtE, ast.Lt, ast.Eq):
+        if (l, r) == (small, big) and op is ast.LtE:
             return True
-        if (l, r) == (big, small) and op in (ast.GtE, ast.Gt, ast.Eq):
+        if (l, r) == (big, small) and op is ast.GtE:
             return True
-    return False
+        if (l, r) == (small, big) and op is ast.Lt:
+            strict = True
+        if (l, r) == (big, small) and op is ast.Gt:
+            strict = True
+    return "strict" if strict else False
 
 
 def run(ctx):
@@ -162,7 +169,14 @@ def run(ctx):
         for n in cfg.owners(ap):
             cmps = true_compares(cfg, n, ch.node)
             key = f"children:append:{obj}:{'rec' if _in_while(ch.node, ap) else 'flat'}"
-            if holds_le(cmps, "self.create_time()", f"{obj}.create_time()"):
+            hl = holds_le(cmps, "self.create_time()", f"{obj}.create_time()")
+            if hl == "strict":
+                ctx.fail("C05.R2", key + ":ctime", ch.file, ap.lineno, ch.qual,
+                         f"`{norm_stmt(ap)}` requires self.create_time() < {obj}."
+                         f"create_time() (strict): a child started in the same clock tick "
+                         f"as the caller (create_time() has 0.01 s resolution) is dropped "
+                         f"although it did not start before it")
+            elif hl:
                 ctx.ok("C05.R2", key + ":ctime",
                        sample={"append": norm_stmt(ap), "under": "self.create_time() <= "
                                f"{obj}.create_time()"})
@@ -358,9 +372,15 @@ def run(ctx):
     for n in rets:
         obj = norm_stmt(n.stmt.value)
         cm = true_compares(pcfg, n, pa.node)
-        good = any(holds_le(cm, f"{obj}.create_time()", x)
-                   for x in ctime_names + ["self.create_time()"])
-        if good:
+        hls = [holds_le(cm, f"{obj}.create_time()", x)
+               for x in ctime_names + ["self.create_time()"]]
+        good = any(h is True for h in hls)
+        if not good and "strict" in hls:
+            ctx.fail("C05.R4", "parent:ctime-order", pa.file, n.line, pa.qual,
+                     f"`return {obj}` requires {obj}.create_time() < the caller's creation "
+                     f"time (strict): a parent started in the same clock tick as the caller "
+                     f"is not younger than it, yet parent() answers None")
+        elif good:
             ctx.ok("C05.R4", "parent:ctime-order",
                    sample=f"return {obj} under {obj}.create_time() <= own ctime")
         else:
